@@ -138,10 +138,11 @@ Proof.
   - split; [discriminate|]. intros H. exfalso. apply H. exists d. now apply lookup_type_defines.
   - split; [|reflexivity]. intros _. now apply lookup_type_None.
 Qed.
-Lemma custom_resolves_iff reg c : RegWF reg ->
+Lemma custom_resolves_iff reg keep c : RegWF reg ->
   ((exists d, defines_op reg (c_ext c) (c_name c) d /\
-              resolve_op reg (OCustom c) =
-              OExt {| x_def := d; x_sig := resolve_ft reg (c_sig c); x_args := map (resolve_arg reg) (c_args c) |})
+              resolve_op reg keep (OCustom c) =
+              OExt {| x_def := d; x_sig := resolve_ft reg (c_sig c); x_args := map (resolve_arg reg) (c_args c);
+                    x_descr := resolved_descr keep c d |})
    <-> resolvable_op reg (c_ext c) (c_name c)).
 Proof.
   intros Hwf. split.
@@ -149,8 +150,8 @@ Proof.
   - intros [d Hd]. exists d. split; [exact Hd|]. cbn. unfold resolve_custom.
     now rewrite (defines_lookup_op _ _ _ _ Hwf Hd).
 Qed.
-Lemma custom_stays_iff reg c : RegWF reg ->
-  (resolve_op reg (OCustom c) = OCustom c <-> ~ resolvable_op reg (c_ext c) (c_name c)).
+Lemma custom_stays_iff reg keep c : RegWF reg ->
+  (resolve_op reg keep (OCustom c) = OCustom c <-> ~ resolvable_op reg (c_ext c) (c_name c)).
 Proof.
   intros Hwf. cbn. unfold resolve_custom. destruct (lookup_op reg (c_ext c) (c_name c)) as [d|] eqn:E.
   - split; [discriminate|]. intros H. exfalso. apply H. exists d. now apply lookup_op_defines.
@@ -176,14 +177,15 @@ Lemma resolve_pointwise reg t : RegWF reg -> RTy reg t (resolve_ty reg t).
 Proof. intros Hwf. now apply resolve_pointwise_both. Qed.
 Lemma resolve_arg_pointwise reg a : RegWF reg -> RArg reg a (resolve_arg reg a).
 Proof. intros Hwf. now apply resolve_pointwise_both. Qed.
-Lemma resolve_op_pointwise reg o : RegWF reg -> ROp reg o (resolve_op reg o).
+Lemma resolve_op_pointwise reg keep o : RegWF reg -> ROp reg o (resolve_op reg keep o).
 Proof.
   intros Hwf. destruct o as [c|x|k]; cbn; try constructor.
   unfold resolve_custom. destruct (lookup_op reg (c_ext c) (c_name c)) as [d|] eqn:E.
-  - constructor; [now apply lookup_op_defines| |].
+  - apply ROpDef; [now apply lookup_op_defines| | |].
     + unfold RFt, resolve_ft; cbn. repeat split; apply Forall_Forall2_map, Forall_forall; intros;
         now apply resolve_pointwise.
     + apply Forall_Forall2_map, Forall_forall; intros; now apply resolve_arg_pointwise.
+    + unfold resolved_descr. destruct (keep c); [now left|now right].
   - constructor. now apply lookup_op_None.
 Qed.
 
@@ -239,13 +241,14 @@ Lemma resolve_ty_idem reg t : resolve_ty reg (resolve_ty reg t) = resolve_ty reg
 Proof. apply resolve_idem_both. Qed.
 Lemma resolve_arg_idem reg a : resolve_arg reg (resolve_arg reg a) = resolve_arg reg a.
 Proof. apply resolve_idem_both. Qed.
-Lemma resolve_op_idem reg o : resolve_op reg (resolve_op reg o) = resolve_op reg o.
+(* whatever is chosen at the second call: nothing opaque with a definition is left to choose for *)
+Lemma resolve_op_idem reg keep keep' o : resolve_op reg keep' (resolve_op reg keep o) = resolve_op reg keep o.
 Proof.
   destruct o as [c|x|k]; cbn; try reflexivity. unfold resolve_custom.
   destruct (lookup_op reg (c_ext c) (c_name c)) as [d|] eqn:E; cbn; [reflexivity|].
   unfold resolve_custom. now rewrite E.
 Qed.
-Lemma resolve_hugr_idem reg h : resolve_hugr reg (resolve_hugr reg h) = resolve_hugr reg h.
+Lemma resolve_hugr_idem reg keep keep' h : resolve_hugr reg keep' (resolve_hugr reg keep h) = resolve_hugr reg keep h.
 Proof. unfold resolve_hugr. rewrite map_map. apply map_ext. intros. apply resolve_op_idem. Qed.
 
 (* ------------------------------------------------------------------ untouched otherwise *)
@@ -468,8 +471,8 @@ Proof.
     auto; apply Forall_forall; intros; now apply resolve_ser.
 Qed.
 
-Lemma resolve_op_ser reg o s : RegWF reg -> consistent_op reg o = true -> ser_op o = Some s ->
-  exists s', ser_op (resolve_op reg o) = Some s' /\ same_but_descr reg s s'.
+Lemma resolve_op_ser reg keep o s : RegWF reg -> consistent_op reg o = true -> ser_op o = Some s ->
+  exists s', ser_op (resolve_op reg keep o) = Some s' /\ same_but_descr reg s s'.
 Proof.
   intros Hwf Hc Hs. destruct o as [c|x|k]; cbn [resolve_op].
   - unfold resolve_custom. destruct (lookup_op reg (c_ext c) (c_name c)) as [d|] eqn:E.
@@ -482,7 +485,7 @@ Proof.
       destruct (omap ser_arg (c_args c)) as [sa|]; [|discriminate].
       injection Hs as <-. eexists. split; [reflexivity|]. cbn.
       apply lookup_op_defines in E. destruct (defines_op_names _ _ _ _ Hwf E) as (-> & -> & _).
-      repeat split. right. exists d. now split.
+      repeat split. unfold resolved_descr. destruct (keep c); [now left|right; exists d; now split].
     + exists s. split; [exact Hs|]. cbn [ser_op] in Hs. destruct (ser_custom c) as [sc|]; [|discriminate].
       injection Hs as <-. cbn. repeat split. now left.
   - exists s. split; [exact Hs|]. cbn [ser_op] in Hs. destruct (ser_custom (to_custom_op x)); [|discriminate].
@@ -490,8 +493,33 @@ Proof.
   - exists s. split; [exact Hs|]. cbn in Hs. injection Hs as <-. reflexivity.
 Qed.
 
-Lemma resolve_hugr_ser reg h s : RegWF reg -> forallb (consistent_op reg) h = true -> ser_hugr h = Some s ->
-  exists s', ser_hugr (resolve_hugr reg h) = Some s' /\ Forall2 (same_but_descr reg) s s'.
+(* the description clause, both directions: an operation whose loaded description the implementation keeps
+   serialises exactly as before (also when serialisation raises); one whose description it replaces
+   serialises with the description of the definition filed under its name *)
+Lemma resolve_op_ser_keep reg keep o : RegWF reg -> consistent_op reg o = true ->
+  (forall c, o = OCustom c -> keep c = true) -> ser_op (resolve_op reg keep o) = ser_op o.
+Proof.
+  intros Hwf Hc Hk. destruct o as [c|x|k]; cbn [resolve_op]; try reflexivity.
+  unfold resolve_custom. destruct (lookup_op reg (c_ext c) (c_name c)) as [d|] eqn:E; [|reflexivity].
+  cbn [consistent_op] in Hc. apply andb_true_iff in Hc as [Hf Ha].
+  cbn [ser_op]. unfold ser_custom. cbn [to_custom_op c_sig c_args x_sig x_args x_def x_descr c_ext c_name c_descr].
+  rewrite (resolve_ft_ser _ _ Hwf Hf), omap_map.
+  rewrite (omap_ext_guarded (consistent_arg reg) _ ser_arg (c_args c));
+    [|apply Forall_forall; intros; now apply resolve_arg_ser|exact Ha].
+  apply lookup_op_defines in E. destruct (defines_op_names _ _ _ _ Hwf E) as (-> & -> & _).
+  unfold resolved_descr. now rewrite (Hk c eq_refl).
+Qed.
+Lemma resolve_op_ser_take reg keep c d s' : RegWF reg -> defines_op reg (c_ext c) (c_name c) d -> keep c = false ->
+  ser_op (resolve_op reg keep (OCustom c)) = Some (OCustom s') -> c_descr s' = od_descr d.
+Proof.
+  intros Hwf Hd Hk. cbn [resolve_op]. unfold resolve_custom. rewrite (defines_lookup_op _ _ _ _ Hwf Hd).
+  cbn [ser_op]. unfold ser_custom. cbn [to_custom_op c_sig c_args x_sig x_args x_def x_descr].
+  destruct (ser_ft _); [|discriminate]. destruct (omap ser_arg _); [|discriminate].
+  intros H. injection H as <-. cbn. unfold resolved_descr. now rewrite Hk.
+Qed.
+
+Lemma resolve_hugr_ser reg keep h s : RegWF reg -> forallb (consistent_op reg) h = true -> ser_hugr h = Some s ->
+  exists s', ser_hugr (resolve_hugr reg keep h) = Some s' /\ Forall2 (same_but_descr reg) s s'.
 Proof.
   intros Hwf. unfold ser_hugr, resolve_hugr. revert s.
   induction h as [|o h IH]; cbn; intros s Hc Hs.
@@ -499,14 +527,14 @@ Proof.
   - apply andb_true_iff in Hc as [Hc1 Hc2].
     destruct (ser_op o) as [so|] eqn:Eo; [|discriminate].
     destruct (omap ser_op h) as [sh|] eqn:Eh; [|discriminate]. injection Hs as <-.
-    destruct (resolve_op_ser _ _ _ Hwf Hc1 Eo) as [so' [Eso' Hrel]].
+    destruct (resolve_op_ser _ keep _ _ Hwf Hc1 Eo) as [so' [Eso' Hrel]].
     destruct (IH _ Hc2 eq_refl) as [sh' [Esh' Hrel']].
     rewrite Eso', Esh'. eexists. split; [reflexivity|]. now constructor.
 Qed.
 
 Lemma resolve_ft_model reg f : RegWF reg -> ft_to_model (resolve_ft reg f) = ft_to_model f.
 Proof. intros Hwf. unfold ft_to_model, resolve_ft. cbn [ft_in ft_out ft_reqs]. exact (resolve_model reg (TFunc _ _ _) Hwf). Qed.
-Lemma resolve_op_export reg o : RegWF reg -> export_op (resolve_op reg o) = export_op o.
+Lemma resolve_op_export reg keep o : RegWF reg -> export_op (resolve_op reg keep o) = export_op o.
 Proof.
   intros Hwf. destruct o as [c|x|k]; cbn [resolve_op]; try reflexivity.
   unfold resolve_custom. destruct (lookup_op reg (c_ext c) (c_name c)) as [d|] eqn:E; [|reflexivity].
@@ -518,8 +546,8 @@ Proof.
 Qed.
 
 (* signatures and port types: same number of ports, same bounds, same serial form *)
-Lemma resolve_op_signature reg o f : outer_signature o = Some f ->
-  exists f', outer_signature (resolve_op reg o) = Some f' /\
+Lemma resolve_op_signature reg keep o f : outer_signature o = Some f ->
+  exists f', outer_signature (resolve_op reg keep o) = Some f' /\
              (f' = f \/ f' = resolve_ft reg f).
 Proof.
   destruct o as [c|x|k]; cbn; intros H; try discriminate; injection H as <-.
@@ -581,12 +609,13 @@ Example ex_nontrivial :
   RegWF Ex.reg /\ no_ext Ex.t = true /\ consistent Ex.reg Ex.t = true /\ clean Ex.reg Ex.t = false /\
   resolve_ty Ex.reg Ex.t <> Ex.t /\ ser_ty (resolve_ty Ex.reg Ex.t) = Some Ex.t /\
   consistent_op Ex.reg (OCustom Ex.c) = true /\
-  (exists x, resolve_op Ex.reg (OCustom Ex.c) = OExt x) /\
-  (exists s s', ser_op (OCustom Ex.c) = Some (OCustom s) /\ ser_op (resolve_op Ex.reg (OCustom Ex.c)) = Some (OCustom s') /\
-                c_descr s <> c_descr s').
+  (forall keep, exists x, resolve_op Ex.reg keep (OCustom Ex.c) = OExt x) /\
+  (exists s s', ser_op (OCustom Ex.c) = Some (OCustom s) /\
+                ser_op (resolve_op Ex.reg take_definitions (OCustom Ex.c)) = Some (OCustom s') /\ c_descr s <> c_descr s') /\
+  ser_op (resolve_op Ex.reg keep_loaded (OCustom Ex.c)) = ser_op (OCustom Ex.c).
 Proof.
   split; [exact ex_regwf|]. repeat split; try reflexivity; try discriminate.
-  - eexists; reflexivity.
+  - intros keep. eexists; reflexivity.
   - do 2 eexists. repeat split; try reflexivity. cbn. discriminate.
 Qed.
 
@@ -806,8 +835,9 @@ Lemma op_eqb_eq a b : op_eqb a b = true -> a = b.
 Proof.
   destruct a as [c|x|k], b as [c'|x'|k']; cbn; try discriminate; intros H.
   - f_equal. now apply custom_eqb_eq.
-  - destruct x, x'. cbn in H. apply andb_true_iff in H as [H Ha]. apply andb_true_iff in H as [Hd Hs].
-    apply opdef_eqb_eq in Hd. apply ft_eqb_eq in Hs. apply tyargs_eqb_eq in Ha. congruence.
+  - destruct x, x'. cbn in H. apply andb_true_iff in H as [H Hds]. apply andb_true_iff in H as [H Ha].
+    apply andb_true_iff in H as [Hd Hs].
+    apply opdef_eqb_eq in Hd. apply ft_eqb_eq in Hs. apply tyargs_eqb_eq in Ha. apply N.eqb_eq in Hds. congruence.
   - apply N.eqb_eq in H. congruence.
 Qed.
 Lemma rtys_b_sound reg l m : list_eqb (rty_b reg) l m = true -> Forall2 (RTy reg) l m.
@@ -821,8 +851,9 @@ Proof.
     try (match goal with |- ROp _ ?a ?b => apply (op_eqb_eq a b) in H end; rewrite <- H; constructor; fail).
   - apply andb_true_iff in H as [Hn He]. apply custom_eqb_eq in He. subst. constructor.
     intros Hr. apply resolvable_op_b_spec in Hr. rewrite Hr in Hn. discriminate.
-  - destruct x' as [d s a]. cbn in H. apply andb_true_iff in H as [H Ha]. apply andb_true_iff in H as [Hm Hs].
-    constructor.
+  - destruct x' as [d s a ds]. cbn in H. apply andb_true_iff in H as [H Hds]. apply andb_true_iff in H as [H Ha].
+    apply andb_true_iff in H as [Hm Hs].
+    apply ROpDef; [| | |apply orb_true_iff in Hds as [Hds|Hds]; apply N.eqb_eq in Hds; [now left|now right]].
     + apply In_defs_op. eapply mem_In; [|exact Hm]. apply opdef_eqb_eq.
     + unfold rft_b in Hs. apply andb_true_iff in Hs as [Hs Hr]. apply andb_true_iff in Hs as [Hi Ho].
       apply names_eqb_eq in Hr. repeat split; [now apply rtys_b_sound|now apply rtys_b_sound|exact Hr].
@@ -842,7 +873,7 @@ Proof.
   - now apply regwf_b_sound.
 Qed.
 
-Lemma resolve_exactly_when_defined_thm : forall reg, RegWF reg ->
+Lemma resolve_exactly_when_defined_thm : forall reg keep, RegWF reg ->
   (forall e id args b,
      ((exists d, defines_ty reg e id d /\
                  resolve_ty reg (TOpaque e id args b) = TExt d (map (resolve_arg reg) args) Generic)
@@ -851,69 +882,76 @@ Lemma resolve_exactly_when_defined_thm : forall reg, RegWF reg ->
       <-> ~ resolvable_ty reg e id)) /\
   (forall c,
      ((exists d, defines_op reg (c_ext c) (c_name c) d /\
-                 resolve_op reg (OCustom c) =
-                 OExt {| x_def := d; x_sig := resolve_ft reg (c_sig c); x_args := map (resolve_arg reg) (c_args c) |})
+                 resolve_op reg keep (OCustom c) =
+                 OExt {| x_def := d; x_sig := resolve_ft reg (c_sig c); x_args := map (resolve_arg reg) (c_args c);
+                    x_descr := resolved_descr keep c d |})
       <-> resolvable_op reg (c_ext c) (c_name c)) /\
-     (resolve_op reg (OCustom c) = OCustom c <-> ~ resolvable_op reg (c_ext c) (c_name c))).
+     (resolve_op reg keep (OCustom c) = OCustom c <-> ~ resolvable_op reg (c_ext c) (c_name c))).
 Proof.
-  intros reg Hwf. split; intros; split;
+  intros reg keep Hwf. split; intros; split;
     auto using opaque_resolves_iff, opaque_stays_iff, custom_resolves_iff, custom_stays_iff.
 Qed.
 
-Lemma resolve_pointwise_thm : forall reg, RegWF reg ->
+Lemma resolve_pointwise_thm : forall reg keep, RegWF reg ->
   (forall t, RTy reg t (resolve_ty reg t)) /\ (forall a, RArg reg a (resolve_arg reg a)) /\
-  (forall o, ROp reg o (resolve_op reg o)) /\
-  (forall h, Forall2 (ROp reg) h (resolve_hugr reg h)).
+  (forall o, ROp reg o (resolve_op reg keep o)) /\
+  (forall h, Forall2 (ROp reg) h (resolve_hugr reg keep h)).
 Proof.
-  intros reg Hwf. repeat split; intros.
+  intros reg keep Hwf. repeat split; intros.
   - now apply resolve_pointwise.
   - now apply resolve_arg_pointwise.
   - now apply resolve_op_pointwise.
   - unfold resolve_hugr. apply Forall_Forall2_map, Forall_forall. intros. now apply resolve_op_pointwise.
 Qed.
 
-Lemma resolve_untouched_otherwise_thm : forall reg,
+Lemma resolve_untouched_otherwise_thm : forall reg keep,
   (forall t, clean reg t = true -> resolve_ty reg t = t) /\
   (forall a, clean_arg reg a = true -> resolve_arg reg a = a) /\
-  (forall x, resolve_op reg (OExt x) = OExt x) /\ (forall k, resolve_op reg (OOther k) = OOther k) /\
-  (RegWF reg -> forall c, ~ resolvable_op reg (c_ext c) (c_name c) -> resolve_op reg (OCustom c) = OCustom c).
+  (forall x, resolve_op reg keep (OExt x) = OExt x) /\ (forall k, resolve_op reg keep (OOther k) = OOther k) /\
+  (RegWF reg -> forall c, ~ resolvable_op reg (c_ext c) (c_name c) -> resolve_op reg keep (OCustom c) = OCustom c).
 Proof.
-  intros reg. repeat split; intros; try reflexivity.
+  intros reg keep. repeat split; intros; try reflexivity.
   - now apply resolve_clean.
   - now apply resolve_arg_clean.
   - now apply custom_stays_iff.
 Qed.
 
-Lemma resolve_preserves_encoding_thm : forall reg, RegWF reg ->
+Lemma resolve_preserves_encoding_thm : forall reg keep, RegWF reg ->
   (forall t, consistent reg t = true -> ser_ty (resolve_ty reg t) = ser_ty t) /\
   (forall a, consistent_arg reg a = true -> ser_arg (resolve_arg reg a) = ser_arg a) /\
   (forall o s, consistent_op reg o = true -> ser_op o = Some s ->
-     exists s', ser_op (resolve_op reg o) = Some s' /\ same_but_descr reg s s') /\
+     exists s', ser_op (resolve_op reg keep o) = Some s' /\ same_but_descr reg s s') /\
   (forall h s, forallb (consistent_op reg) h = true -> ser_hugr h = Some s ->
-     exists s', ser_hugr (resolve_hugr reg h) = Some s' /\ Forall2 (same_but_descr reg) s s').
+     exists s', ser_hugr (resolve_hugr reg keep h) = Some s' /\ Forall2 (same_but_descr reg) s s') /\
+  (forall o, consistent_op reg o = true -> (forall c, o = OCustom c -> keep c = true) ->
+     ser_op (resolve_op reg keep o) = ser_op o) /\
+  (forall c d s', defines_op reg (c_ext c) (c_name c) d -> keep c = false ->
+     ser_op (resolve_op reg keep (OCustom c)) = Some (OCustom s') -> c_descr s' = od_descr d).
 Proof.
-  intros reg Hwf. repeat split; intros.
+  intros reg keep Hwf. split; [|split; [|split; [|split; [|split]]]]; intros.
   - now apply resolve_ser.
   - now apply resolve_arg_ser.
   - now apply resolve_op_ser.
   - now apply resolve_hugr_ser.
+  - now apply resolve_op_ser_keep.
+  - eapply resolve_op_ser_take; eauto.
 Qed.
 
-Lemma resolve_preserves_model_export_thm : forall reg, RegWF reg ->
+Lemma resolve_preserves_model_export_thm : forall reg keep, RegWF reg ->
   (forall t, to_model (resolve_ty reg t) = to_model t) /\
   (forall a, arg_to_model (resolve_arg reg a) = arg_to_model a) /\
-  (forall o, export_op (resolve_op reg o) = export_op o).
+  (forall o, export_op (resolve_op reg keep o) = export_op o).
 Proof.
-  intros reg Hwf. repeat split; intros.
+  intros reg keep Hwf. repeat split; intros.
   - now apply resolve_model.
   - now apply resolve_arg_model.
   - now apply resolve_op_export.
 Qed.
 
-Lemma resolve_preserves_facts_thm : forall reg,
+Lemma resolve_preserves_facts_thm : forall reg keep,
   (forall t, consistent reg t = true -> tbound (resolve_ty reg t) = tbound t) /\
   (forall o f, outer_signature o = Some f ->
-     exists f', outer_signature (resolve_op reg o) = Some f' /\ (f' = f \/ f' = resolve_ft reg f)) /\
+     exists f', outer_signature (resolve_op reg keep o) = Some f' /\ (f' = f \/ f' = resolve_ft reg f)) /\
   (forall f, consistent_ft reg f = true ->
      ft_reqs (resolve_ft reg f) = ft_reqs f /\
      length (ft_in (resolve_ft reg f)) = length (ft_in f) /\ length (ft_out (resolve_ft reg f)) = length (ft_out f) /\
@@ -921,7 +959,7 @@ Lemma resolve_preserves_facts_thm : forall reg,
      row_bounds (ft_out (resolve_ft reg f)) = row_bounds (ft_out f) /\
      (RegWF reg -> ser_ft (resolve_ft reg f) = ser_ft f)).
 Proof.
-  intros reg. repeat split; intros.
+  intros reg keep. repeat split; intros.
   - now apply resolve_bound.
   - now apply resolve_op_signature.
   - apply map_length.
@@ -931,13 +969,13 @@ Proof.
   - now apply resolve_ft_ser.
 Qed.
 
-Lemma resolve_idempotent_thm : forall reg,
+Lemma resolve_idempotent_thm : forall reg keep keep',
   (forall t, resolve_ty reg (resolve_ty reg t) = resolve_ty reg t) /\
   (forall a, resolve_arg reg (resolve_arg reg a) = resolve_arg reg a) /\
-  (forall o, resolve_op reg (resolve_op reg o) = resolve_op reg o) /\
-  (forall h, resolve_hugr reg (resolve_hugr reg h) = resolve_hugr reg h).
+  (forall o, resolve_op reg keep' (resolve_op reg keep o) = resolve_op reg keep o) /\
+  (forall h, resolve_hugr reg keep' (resolve_hugr reg keep h) = resolve_hugr reg keep h).
 Proof.
-  intros reg. repeat split; intros.
+  intros reg keep keep'. repeat split; intros.
   - apply resolve_ty_idem.
   - apply resolve_arg_idem.
   - apply resolve_op_idem.
